@@ -56,7 +56,7 @@ PROFILES = {
     "C15": {"w": _p(op1=14, opx=10, mk_op=4, struct=4, measure=1, kraus=2), "clients": (1, 2), "fault_rate": 0.0, "reuse": True},
     "C17": {"w": _p(fault=0), "clients": (1, 2), "fault_rate": 0.25},
     "C18": {"w": _p(measure=12, mk_ce=4, struct=6, trace_out=4, opx=5, op1=5), "clients": (1, 2), "fault_rate": 0.0, "equal_values": True, "min_envs": 2},
-    "C20": {"w": _p(mk_ce=3, opx=9, kraus=4, povm=3, measure=4, trace_out=3, resize=2), "clients": (2, 2), "fault_rate": 0.0, "min_envs": 3},
+    "C20": {"w": _p(mk_ce=3, opx=9, kraus=4, povm=3, measure=4, trace_out=6, resize=2), "clients": (2, 2), "fault_rate": 0.0, "min_envs": 3},
     "ALL": {"w": _p(fault=0), "clients": (1, 3), "fault_rate": 0.08},
 }
 
@@ -341,13 +341,13 @@ class Gen:
                 blocks.append(b)
         D = 1
         members = 0
-        all_complex = True
+        all_complex = False  # the merged array is complex as soon as one factor is
         for b in blocks:
             D *= b.D
             members += len(b.members)
             dt = getattr(b.arr, "dtype", None)
-            if dt is None or dt.kind != "c":
-                all_complex = False
+            if dt is not None and dt.kind == "c":
+                all_complex = True
         # XLA's CPU compile time of the library's 3-operand einsums explodes with tensor rank:
         # ~190 s for an all-float64 rank-8 contraction (4 members at matrix level), > 60 s at rank 14
         if members > 5 or (members > 3 and not all_complex):
@@ -688,6 +688,10 @@ class Gen:
         if entry == "ce":
             cand = [n for n in self._class_subs(world, pre, extra["ce"]) if n != sub and pre.block_of(n).kind == "ps"]
             rng.shuffle(cand)
+            if rng.random() < 0.5:
+                # prefer operands held in OTHER product spaces (forces a merge; bystander spaces must stay)
+                other = [n for n in cand if pre.block_of(n) is not pre.block_of(sub)]
+                cand = other + [n for n in cand if n not in other]
             on += cand[: rng.randint(0, 2)]
             rng.shuffle(on)
         if self._merged_dim(pre, on) > 200:
